@@ -466,3 +466,23 @@ package protocol
 //@   ensures n1 == 3 + len(l.Chassis.Data) + 3 + len(l.Port.Data) + 4 && len(b1) == n1
 //@   ensures be16(b1, 0) == 512 + l.Chassis.Length && u8(b1, 2) == l.Chassis.Subtype && be16(b1, 3 + len(l.Chassis.Data)) == 1024 + l.Port.Length
 //@   ensures err == nil && n2 == n1 && d.Chassis.Subtype == l.Chassis.Subtype && d.Port.Subtype == l.Port.Subtype && d.TTL.Seconds == l.TTL.Seconds
+
+// DHCP (RFC 2131 / 2132): 236 fixed bytes, magic cookie 0x63825363, options (tag, length, data), END (255).
+//@ func lemmaDHCP(d, tag, data) (r, n1, n2, err, b1) [C09]
+//@   inlinecalls
+//@   modreach
+//@   unroll 4
+//@   modifies d.Options
+//@   requires d != nil && tag != 0 && tag != 255 && len(data) <= 253 && d.HardwareLen <= 16 && len(d.ClientHWAddr) == int(d.HardwareLen) && len(d.ClientIP) == 4 && len(d.YourIP) == 4 && len(d.ServerIP) == 4 && len(d.GatewayIP) == 4
+//@   ensures n1 == 243 + len(data) && len(b1) == n1
+//@   ensures u8(b1, 0) == uint8(d.Operation) && u8(b1, 1) == d.HardwareType && u8(b1, 2) == d.HardwareLen && u8(b1, 3) == d.HardwareOpts && be32(b1, 4) == d.Xid && be16(b1, 8) == d.Secs && be16(b1, 10) == d.Flags && bytes_eq(b1, 12, d.ClientIP, 0, 4) && bytes_eq(b1, 16, d.YourIP, 0, 4) && bytes_eq(b1, 20, d.ServerIP, 0, 4) && bytes_eq(b1, 24, d.GatewayIP, 0, 4) && be32(b1, 236) == 1669485411 && u8(b1, 240) == tag && u8(b1, 241) == uint8(len(data)) && bytes_eq(b1, 242, data, 0, len(data)) && u8(b1, 242 + len(data)) == 255
+//@   ensures err == nil && n2 == n1 && r.Operation == d.Operation && r.HardwareType == d.HardwareType && r.HardwareLen == d.HardwareLen && r.HardwareOpts == d.HardwareOpts && r.Xid == d.Xid && r.Secs == d.Secs && r.Flags == d.Flags && len(r.ClientIP) == 4 && bytes_eq(r.ClientIP, 0, d.ClientIP, 0, 4) && len(r.GatewayIP) == 4 && bytes_eq(r.GatewayIP, 0, d.GatewayIP, 0, 4) && len(r.ClientHWAddr) == int(d.HardwareLen)
+//@   ensures err == nil ==> len(r.Options) == 1 && typeis(r.Options[0], *dhcpoption) && r.Options[0].(*dhcpoption).tag == tag && len(r.Options[0].(*dhcpoption).data) == len(data)
+
+//@ func lemmaDHCPPad(d, tag, data) (n1, size, b1) [C09]
+//@   inlinecalls
+//@   modreach
+//@   unroll 4
+//@   modifies d.Options
+//@   requires d != nil && tag != 0 && tag != 255 && len(data) <= 253 && d.HardwareLen <= 16 && len(d.ClientHWAddr) == int(d.HardwareLen) && len(d.ClientIP) == 4 && len(d.YourIP) == 4 && len(d.ServerIP) == 4 && len(d.GatewayIP) == 4
+//@   ensures n1 == 244 + len(data) && n1 == size && u8(b1, 240) == 0 && u8(b1, 241) == tag && u8(b1, 243 + len(data)) == 255
